@@ -1,6 +1,7 @@
 (* Props/C11.v — Find returns exactly the matching tasks, oldest first, paged correctly. *)
 From GK Require Import PropCheck Findings.
 From GK.Proofs Require Import BaseLemmas RepoProofs FindProofs.
+From GK.Proofs Require PredProofs RepoProofs2.
 From Coq Require Import Sorted Permutation.
 
 (* the string matchers are the documented rules *)
@@ -56,3 +57,16 @@ Theorem C11_ms_precision : forall (c : cfg) (s : repo) (q q' : query) (off lim :
   norm_query (c_norm_deadline c) q = norm_query (c_norm_deadline c) q' -> find c s q off lim = find c s q' off lim.
 Proof. intros c s q q' off lim H. unfold find. rewrite H. reflexivity. Qed.
 Print Assumptions C11_ms_precision.
+
+(* executable form: p_C11 (the documented rule) holds of the model's own observation of every step EXACTLY for the
+   configurations whose matchers are case-sensitive and normalize the deadline operand: so it holds of the in-memory
+   configuration and is refuted for the faithful ent configuration (F4) *)
+Theorem C11_model_satisfies_predicate_iff : forall (c : cfg),
+  (forall s o, RepoProofs.wf_repo s -> RepoProofs.op_ok s o -> p_C11 c s o (RepoProofs2.model_obs c s o) = true)
+  <-> (c_like_ci c = false /\ c_norm_deadline c = true).
+Proof. exact PredProofs.model_obs_C11_iff. Qed.
+Print Assumptions C11_model_satisfies_predicate_iff.
+Theorem C11_predicate_refuted_for_ent :
+  exists s o, RepoProofs.wf_repo s /\ RepoProofs.op_ok s o /\ p_C11 cfg_ent s o (RepoProofs2.model_obs cfg_ent s o) = false.
+Proof. exact PredProofs.model_obs_C11_ent_refuted. Qed.
+Print Assumptions C11_predicate_refuted_for_ent.
